@@ -77,5 +77,8 @@ for d in sorted(os.listdir(root)):
         "detected_by": det,
         "detected": any(v["exit"] == 1 and v["violation_lines"] > 0 for v in det.values()),
     }
+    ob = os.path.join(path, "obsolete")
+    if os.path.exists(ob):
+        meta["obsolete"] = clean(open(ob).read(), 900)
     json.dump(meta, open(os.path.join(path, "meta.json"), "w"), indent=1, ensure_ascii=False)
     print(d, "detected" if meta["detected"] else "NOT DETECTED", "| needs:", clean(meta["needs"], 80))
